@@ -53,6 +53,8 @@ impl AngleDir {
 /// ```
 ///
 /// ```
+#[cfg_attr(kani, kani::requires(crate::verif_kani::angles::in_domain(radians0) && crate::verif_kani::angles::in_domain(radians1)))]
+#[cfg_attr(kani, kani::ensures(|r: &f64| crate::verif_kani::angles::post_in_direction(*r)))]
 pub fn angle_in_direction(radians0: f64, radians1: f64, angle_dir: AngleDir) -> f64 {
     let t0 = angle_signed_pi(radians0);
     let t1 = angle_signed_pi(radians1);
@@ -86,6 +88,8 @@ pub fn angle_in_direction(radians0: f64, radians1: f64, angle_dir: AngleDir) -> 
 /// let new_angle = angle_signed_pi(2.5 * PI);
 /// assert_relative_eq!(new_angle, PI / 2.0, epsilon = 1.0e-10);
 /// ```
+#[cfg_attr(kani, kani::requires(crate::verif_kani::angles::in_domain(radians)))]
+#[cfg_attr(kani, kani::ensures(|r: &f64| crate::verif_kani::angles::post_signed_pi(*r)))]
 pub fn angle_signed_pi(radians: f64) -> f64 {
     let mut angle = radians % (2.0 * PI);
     if angle > PI {
@@ -114,6 +118,8 @@ pub fn angle_signed_pi(radians: f64) -> f64 {
 /// let new_angle = angle_to_2pi(-PI);
 /// assert_relative_eq!(new_angle, PI, epsilon = 1.0e-10);
 /// ```
+#[cfg_attr(kani, kani::requires(crate::verif_kani::angles::in_domain(radians)))]
+#[cfg_attr(kani, kani::ensures(|r: &f64| crate::verif_kani::angles::post_to_2pi(*r)))]
 pub fn angle_to_2pi(radians: f64) -> f64 {
     let mut angle = radians % (2.0 * PI);
     if angle < 0.0 {
@@ -135,6 +141,8 @@ pub fn angle_to_2pi(radians: f64) -> f64 {
 /// ```
 ///
 /// ```
+#[cfg_attr(kani, kani::requires(radians >= -2.0 * PI && radians <= 2.0 * PI))]
+#[cfg_attr(kani, kani::ensures(|r: &f64| crate::verif_kani::angles::post_compliment(radians, *r)))]
 pub fn signed_compliment_2pi(radians: f64) -> f64 {
     if radians >= 0.0 {
         (-2.0 * PI) + radians
